@@ -548,7 +548,14 @@ pub fn judge_c17(s: &Scenario, r: &RunResult) -> Vec<String> {
     for (bi, n) in chain.iter().enumerate() {
         for st in &n.steps {
             match st {
-                Step::StartContainer { cfg, .. } => want_runs.push((cfg, bi)),
+                Step::StartContainer { cfg, steps } => {
+                    want_runs.push((cfg, bi));
+                    for cs in steps {
+                        if let CStep::Nested { cfg, .. } = cs {
+                            want_runs.push((cfg, bi));
+                        }
+                    }
+                }
                 Step::RunShell(c) => want_shell.push(c),
                 _ => {}
             }
@@ -645,8 +652,16 @@ pub fn judge_c17(s: &Scenario, r: &RunResult) -> Vec<String> {
         for st in &n.steps {
             if let Step::StartContainer { steps, .. } = st {
                 for cs in steps {
-                    if let CStep::ShellExec(c) = cs {
-                        want_exec.push(c);
+                    match cs {
+                        CStep::ShellExec(c) => want_exec.push(c),
+                        CStep::Nested { steps, .. } => {
+                            for inner in steps {
+                                if let CStep::ShellExec(c) = inner {
+                                    want_exec.push(c);
+                                }
+                            }
+                        }
+                        _ => {}
                     }
                 }
             }
